@@ -104,6 +104,7 @@ class Rig:
     transport = "le"
     classes = mu.GENERIC
     settle = 0.2  # virtual seconds run after each injected unit
+    allow_stream = True  # the victim's host may be fed through a PacketParser
 
     def __init__(self, rng):
         self.rng = rng
@@ -120,6 +121,15 @@ class Rig:
             rig.enable_classic(self.net)
         self.attacker = self.net[0]
         self.victim = self.net[1]
+        # in half of the runs the victim's host sits behind a stream transport: what its controller sends goes
+        # through a real PacketParser (the transport boundary where exceptions of the stack are contained)
+        self.stream_fed = self.allow_stream and self.rng.random() < 0.5
+        if self.stream_fed:
+            from bumble.transport.common import PacketParser
+
+            st = self.net.stacks[1]
+            self.parser = PacketParser(st.host)
+            st.tap.line_c2h.deliver = self.parser.feed_data
         self.prepare_victim()
         await self.net.power_on()
         if self.transport == "classic":
@@ -1190,6 +1200,7 @@ def hci_valid_disconnect(pkt, handle):
 class HciRig(AttRig):
     """the victim's own controller is the hostile party: packets are injected at the Host's HCI sink"""
     name = "hci"
+    allow_stream = False  # units are whole (possibly malformed) HCI packets: there is no byte stream to re-frame
     classes = ("evt_valid", "evt_trunc", "evt_extend", "evt_bitflip", "evt_badlen", "evt_unknown", "random",
                "acl_cont_orphan", "acl_start_short", "acl_excess", "acl_start_start", "acl_bad_handle", "acl_bad_l2cap_len", "acl_pb_reserved",
                "iso_bad", "sco_bad", "pkt_unknown_type", "evt_disconnect")
